@@ -69,6 +69,13 @@ int main(int argc, char **argv)
       report("getdata_null", f, D, gd_getdata64(D, f, 0, 0, 2, 0, GD_NULL, NULL));
       if (eof > 8) report("getdata_tail", f, D, gd_getdata64(D, f, 0, eof - 5, 0, 16, GD_FLOAT64, dbuf));
       report("getdata_far", f, D, gd_getdata64(D, f, 0, 1000000, 0, 9, GD_FLOAT64, dbuf));
+      { /* representation suffixes */
+        char code[300]; const char *sfx[4] = { ".i", ".r", ".m", ".a" }; int q;
+        if (strlen(f) < 290) for (q = 0; q < 4; q++) {
+          snprintf(code, sizeof code, "%s%s", f, sfx[q]);
+          report("getdata_repr", code, D, gd_getdata64(D, code, 0, 2, 0, 9, (q & 1) ? GD_FLOAT64 : GD_INT32, dbuf));
+        }
+      }
       report("seek", f, D, gd_seek64(D, f, 0, 7, GD_SEEK_SET));
       report("tell", f, D, gd_tell64(D, f));
       report("getdata_here", f, D, gd_getdata64(D, f, GD_HERE, 0, 0, 11, GD_FLOAT64, dbuf));
